@@ -982,7 +982,8 @@ def judge_line(ctx, res, stream):
         if res.get('checker_error'):
             ctx.broken.append(dict(kind='correspondence', name='C06 checker run', detail=p + ' / ' + harness_line(c)[:500]))
         else:
-            verdicts.append(('violation', p, dict(base, why=p)))
+            # a non-simple line that makes the single-sided / offset-curve machinery throw belongs to the input class of K3
+            verdicts.append(('C06-K3' if (not simple and 'did not succeed' in p) else 'violation', p, dict(base, why=p)))
 
     def rel(w):
         return fdist((float(w[0]), float(w[1])), ss)[0] / ad if ad else 0.0
@@ -1017,6 +1018,16 @@ def judge_line(ctx, res, stream):
                 fid = 'C06-K3'
             elif c['api'] == 'D':
                 fid = 'C06-K4'
+            elif gap < ad:
+                # K6 seen through the offset curve: OffsetCurve extracts the raw-curve sections that lie on the buffer boundary,
+                # the boundary of an artifact hole included - a fragment of diameter <= 0.05 |d|
+                wf = (float(w[0]), float(w[1]))
+                for l in res.get('r', {}).get('lines', []):
+                    if l and min(seg_proj(wf, a, b)[0] for a, b in (list(zip(l, l[1:])) or [(l[0], l[0])])) <= (1e-9 * ad) ** 2:
+                        xs = [v[0] for v in l]; ys = [v[1] for v in l]
+                        if math.hypot(max(xs) - min(xs), max(ys) - min(ys)) <= 0.05 * ad:
+                            fid = 'C06-K6'
+                        break
             verdicts.append((fid or 'violation', msg, dict(base, witness=[str(w[0]), str(w[1])], why=msg, expected='at the requested distance')))
         for i in res['f2']:            # too far or wrong side
             w = res['ws'][i]
@@ -1050,6 +1061,56 @@ def near_duplicate_case(rng, c):
     pts = pts[:i + 1] + [b] + pts[i + 1:]
     g = ('LineString', pts)
     return dict(c, g=g, kind='neardup', mag='scaled', d=d, f=d / input_size(flatten(g)), cap=CAP_ROUND, join=JOIN_ROUND)
+
+
+def tri_inradius(t):
+    a, b, c = t[0], t[1], t[2]
+    ar = abs((b[0] - a[0]) * (c[1] - a[1]) - (b[1] - a[1]) * (c[0] - a[0])) / 2
+    per = math.hypot(b[0] - a[0], b[1] - a[1]) + math.hypot(c[0] - b[0], c[1] - b[1]) + math.hypot(a[0] - c[0], a[1] - c[1])
+    return 2 * ar / per if per else 0.0
+
+
+def gen_erosion_case(rng):
+    """aimed at the case split of BufferCurveSetBuilder::isRingFullyEroded / isTriangleErodedCompletely (and of addPolygon's use of
+       them): triangular and 4-vertex holes and shells whose in-radius (triangle) / half envelope width (other rings) is just below or
+       just above |d|, both signs of d; the ring that is NOT under test is kept well away from its own threshold"""
+    def tri(cx, cy, s):
+        a0 = rng.uniform(0, 2 * math.pi)
+        angs = sorted([a0, a0 + rng.uniform(1.6, 2.6), a0 + rng.uniform(3.4, 4.6)])
+        pts = [(round(cx + s * math.cos(a), 3), round(cy + s * math.sin(a), 3)) for a in angs]
+        return pts + [pts[0]]
+
+    def quad(cx, cy, w, h):
+        if rng.random() < 0.5:
+            return G.rect_ring(cx - w / 2, cy - h / 2, cx + w / 2, cy + h / 2)
+        pts = [(cx - w / 2, cy - h / 2 + rng.uniform(0, h / 5)), (cx + w / 2, cy - h / 2), (cx + w / 2 - rng.uniform(0, w / 5), cy + h / 2), (cx - w / 2, cy + h / 2)]
+        pts = [(round(x, 3), round(y, 3)) for x, y in pts]
+        return pts + [pts[0]]
+
+    def thresh(ring):
+        if len(ring) == 4:
+            return tri_inradius(ring)
+        xs = [p[0] for p in ring]; ys = [p[1] for p in ring]
+        return min(max(xs) - min(xs), max(ys) - min(ys)) / 2
+    target = rng.choice(['hole', 'hole', 'hole', 'shell'])
+    scale = rng.choice([1.0, 1.0, 7.3, 1e3, 1e-2])
+    if target == 'hole':
+        S = 40.0
+        shell = quad(0, 0, S, S) if rng.random() < 0.7 else tri(0, 0, S)
+        hs = rng.uniform(1.0, 3.0)
+        hole = tri(rng.uniform(-1, 1), rng.uniform(-1, 1), hs) if rng.random() < 0.6 else quad(rng.uniform(-1, 1), rng.uniform(-1, 1), 2 * hs, 2 * hs * rng.uniform(0.5, 1.5))
+        rings = [shell, hole[::-1]]
+        t = thresh(hole)
+    else:
+        shell = tri(0, 0, rng.uniform(5, 20)) if rng.random() < 0.6 else quad(0, 0, rng.uniform(5, 20), rng.uniform(5, 20))
+        rings = [shell]
+        t = thresh(shell)
+    ad = t * rng.choice([0.5, 0.9, 0.99, 1.01, 1.1, 2.0])
+    sign = rng.choice([-1, -1, 1]) if target == 'hole' else -1
+    g = ('Polygon', [[(x * scale, y * scale) for x, y in r] for r in rings])
+    d = sign * ad * scale
+    return dict(g=g, kind='erode-' + target, mag='scaled', d=d, f=abs(d) / input_size(flatten(g)), q=gen_q(rng), cap=CAP_ROUND, join=JOIN_ROUND,
+                mitre=5.0, api=rng.choice(['B', 'S', 'P']), stream='erode')
 
 
 # ------------------------------------------------------------------------------------------------ corpus
@@ -1215,6 +1276,8 @@ def run(ctx):
                 if nd is not None:
                     c = nd
             cases.append(c); made += 1
+    for _ in range(70 * scale):
+        cases.append(gen_erosion_case(rng))
     # validity of the generated inputs is decided first
     vin = par_lines(ctx, [hexe], ['V|' + G.to_wkt(c['g']) for c in cases], timeout=300)
     nvalid = len(cases)
@@ -1272,8 +1335,8 @@ def run(ctx):
     for c in cases[:3] + lcases[:2]:
         ctx.sample(harness_line(c)[:400])
     # ---- self-check of the generators: every class the proofs and clauses split on must have been drawn
-    need = [('stream', s) for s in ('fillet', 'round', 'neg', 'zero', 'style', 'single-sided', 'offset-curve', 'single-sided-curve')] + \
-           [('q', '<=5'), ('q', '6..32')] + [('kind', k) for k in ('point', 'line', 'poly', 'polyh', 'mpoint', 'mline', 'mpoly', 'coll')] + \
+    need = [('stream', s) for s in ('fillet', 'round', 'neg', 'zero', 'style', 'erode', 'single-sided', 'offset-curve', 'single-sided-curve')] + \
+           [('q', '<=5'), ('q', '6..32')] + [('kind', k) for k in ('point', 'line', 'poly', 'polyh', 'mpoint', 'mline', 'mpoly', 'coll', 'erode-hole', 'erode-shell')] + \
            [('mag', m) for m in ('grid', 'scaled', 'offset')]
     for key, val in need:
         if dist[key].get(val, 0) == 0:
